@@ -45,6 +45,10 @@ type Config struct {
 	WriteTimeoutMs    int    `json:"write_timeout_ms,omitempty"`
 	// Debug: the server copies the protocol exchange to a Debug writer
 	Debug bool `json:"debug,omitempty"`
+	// EOFWithData: the server's connection reports the end of the client's
+	// stream together with the last octets (n > 0, io.EOF) instead of in a
+	// Read of its own (see memnet End.eofWithData)
+	EOFWithData bool `json:"eof_with_data,omitempty"`
 }
 
 // LogBuf captures Server.ErrorLog.
@@ -383,6 +387,7 @@ type Wire struct {
 // handshake is performed at once.
 func (r *Rig) Dial() (*Wire, error) {
 	c, s := r.L.Dial()
+	s.SetEOFWithData(r.Cfg.EOFWithData)
 	w := &Wire{R: r, C: c, S: s}
 	r.B.SetWireMark(func() int64 { return s.out.written })
 	if r.Cfg.ImplicitTLS() {
@@ -437,6 +442,30 @@ func (w *Wire) Send(b []byte) {
 		return
 	}
 	w.C.Write(b)
+}
+
+// SendFinal writes b and half-closes the client's side in the same step (on a
+// plaintext connection; under TLS the close alert is a record of its own).
+func (w *Wire) SendFinal(b []byte) {
+	if w.tlsc != nil {
+		w.Send(b)
+		w.CloseWrite()
+		return
+	}
+	w.C.WriteFinal(b)
+}
+
+// SendCutsFinal is SendCuts with the last segment sent by SendFinal.
+func (w *Wire) SendCutsFinal(stream []byte, cuts []int) {
+	prev := 0
+	for _, c := range cuts {
+		if c <= prev || c >= len(stream) {
+			continue
+		}
+		w.Send(stream[prev:c])
+		prev = c
+	}
+	w.SendFinal(stream[prev:])
 }
 
 // SendCuts writes stream split at the given ascending offsets.
@@ -763,6 +792,7 @@ func (w *Wire) Finish() ([]byte, bool) {
 // implicit TLS; the handshake happens on first use).
 func (r *Rig) DialConn() (net.Conn, *Wire) {
 	c, s := r.L.Dial()
+	s.SetEOFWithData(r.Cfg.EOFWithData)
 	w := &Wire{R: r, C: c, S: s}
 	r.B.SetWireMark(func() int64 { return s.out.written })
 	if r.Cfg.ImplicitTLS() {
